@@ -35,6 +35,9 @@ SHAPES = {
     "num-nl-name": "\n7=v{i}",
     "num-spaced": "8 = v{i}",
     "num-tab-name": "\t9\t=v{i}",
+    # characters str.isdigit() accepts but int() does not: plain string names
+    "superscript-name": "²{i}=v{i}",
+    "circled-name": "①=v{i}",
 }
 SHAPE_NAMES = list(SHAPES)
 WS = " \t\n\r"
@@ -260,7 +263,7 @@ def run(run):
         run.merge(d)
     run.exhaustive = True
     run.rule = (
-        "All argument lists of length <= 3 over 22 argument shapes "
+        "All argument lists of length <= 3 over 24 argument shapes "
         "(positional plain / leading blank / trailing blank / leading newline "
         "/ inner newline; named plain / blank-padded / two-word key / "
         "non-ASCII / inner newline in the value / tab-padded; numeric names 2, "
